@@ -5,7 +5,7 @@
    (its outcome is a document or an error); set after get never panics.  Totality of the model over
    ALL byte strings (including malformed and out-of-domain pointers) is an open obligation: it is
    covered on every run by executing every generated input of every stream under recover(). *)
-From JP Require Import Bytes Json Text Strings Den Pointer Rfc6902 ImplV5 Domain ImplFacts ApplyFacts ApplySim.
+From JP Require Import Bytes Json Text Strings Den Pointer Rfc6902 ImplV5 Domain ImplFacts ApplyFacts Depth ApplySim.
 
 (* partialArray.add: the copy(ary[0:idx], ...) that could panic for a negative index is unreachable,
    for every length, every key and both settings *)
@@ -20,16 +20,22 @@ Theorem C04_set_after_get_never_panics : forall o (ns : list node) t v i,
 Proof. intros o ns t v i H. rewrite (ary_set_after_get o ns t v i H). discriminate. Qed.
 Print Assumptions C04_set_after_get_never_panics.
 
-(* Apply in the stated domain of C01 never panics *)
+(* Apply in the stated domain of C01 never panics: whether every copy fits the nesting limit of
+   deepCopy (then Apply refines the reference) or not (then the copy is refused with an error) *)
 Theorem C04_apply_in_domain_never_panics : forall o indent p doc t,
   plain_opts o -> parse doc = Some t -> root_container t = true -> tnodup t = true ->
   Forall op_dom p -> api_apply o indent p doc <> RPanic.
 Proof.
   intros o indent p doc t PO P RC T D.
-  pose proof (api_apply_sim o indent p doc t PO P RC T D) as S.
-  destruct (rfc_apply (dia o) (den t) (map den_op p)).
-  - destruct S as [n [S _]]. rewrite S. discriminate.
-  - destruct S as [e [S _]]. rewrite S. discriminate.
+  destruct (copies_fit (dia o) (den t) (map den_op p)) eqn:F.
+  - pose proof (api_apply_sim o indent p doc t PO P RC T D F) as S.
+    destruct (rfc_apply (dia o) (den t) (map den_op p)).
+    + destruct S as [n [S _]]. rewrite S. discriminate.
+    + destruct S as [e [S _]]. rewrite S. discriminate.
+  - pose proof (api_apply_copy_too_deep o indent p doc t PO P RC T D F) as S.
+    destruct (rfc_apply (dia o) (den t) (map den_op p)).
+    + destruct S as [j S]. rewrite S. discriminate.
+    + destruct S as [j [e [S _]]]. rewrite S. discriminate.
 Qed.
 Print Assumptions C04_apply_in_domain_never_panics.
 
